@@ -207,6 +207,11 @@ func (fr *Frame) closureOf(v ssa.Value) *closureInfo {
 func (fr *Frame) callStatic(v ssa.Value, fn *ssa.Function, args []Term, cc *ssa.CallCommon, ins ssa.Instruction, hint string) {
 	vc := fr.vc
 	sig := fn.Signature
+	if c := vc.sess.contractFor(fn); c != nil && c.Inline && fn.Blocks == nil {
+		// the body that should be inlined is not loaded: nothing may be assumed
+		fr.unknownCall(v, sig, fullName(fn)+" (inline contract but body not loaded)", cc, hint)
+		return
+	}
 	if c := vc.sess.contractFor(fn); c != nil && !(c.Inline && fn.Blocks != nil) {
 		var rt types.Type
 		if sig.Recv() != nil {
@@ -439,7 +444,7 @@ func (fr *Frame) applyContract(c *Contract, sig *types.Signature, recvT types.Ty
 	for i := 0; i < sig.Results().Len(); i++ {
 		rt := sig.Results().At(i).Type()
 		if c.Pure {
-			res = append(res, fr.pureApp(c, i, sig, recvT, args))
+			res = append(res, fr.pureApp(pre, c, i, sig, recvT, args))
 		} else {
 			res = append(res, fr.havocVal(rt, hint))
 		}
@@ -538,18 +543,49 @@ func (fr *Frame) bindParams(env *Env, c *Contract, sig *types.Signature, recvT t
 }
 
 // pureApp builds the uninterpreted application standing for result i of pure function c.
-func (fr *Frame) pureApp(c *Contract, i int, sig *types.Signature, recvT types.Type, args []Term) Term {
+// Arguments that refer to mutable memory are completed so that the application is a function of its arguments only:
+// slices of scalars carry their element array, pointer-like arguments carry the heap epoch (changed by every
+// unknown call), so a pure function is never assumed stable across unknown mutation.
+func (fr *Frame) pureApp(st *State, c *Contract, i int, sig *types.Signature, recvT types.Type, args []Term) Term {
 	te := fr.te()
 	name := "pf_" + mangle(strings.TrimPrefix(c.Pkg, modPrefix)+"."+c.Key)
 	if sig.Results().Len() > 1 {
 		name = fmt.Sprintf("%s_%d", name, i)
 	}
+	var argTypes []types.Type
+	if recvT != nil {
+		argTypes = append(argTypes, recvT)
+	}
+	for k := 0; k < sig.Params().Len(); k++ {
+		argTypes = append(argTypes, sig.Params().At(k).Type())
+	}
 	var ss, as []string
-	for _, a := range args {
+	needEpoch := false
+	for k, a := range args {
 		ss = append(ss, a.Sort)
 		as = append(as, a.S)
+		if k < len(argTypes) {
+			at := argTypes[k]
+			if sl, ok := at.Underlying().(*types.Slice); ok && !te.isAggregate(sl.Elem()) {
+				hs := arraySort(SInt, arraySort(SInt, te.SortOf(sl.Elem())))
+				inner := tSelect(st.Get(te.elemHeap(sl.Elem()), hs), sArr(a))
+				ss = append(ss, inner.Sort)
+				as = append(as, inner.S)
+			} else if isPointerLike(at) || a.Sort == SSlice || a.Sort == SIface {
+				needEpoch = true
+			}
+		}
+	}
+	if needEpoch {
+		ss = append(ss, SInt)
+		as = append(as, st.Get("epoch", SInt).S)
 	}
 	rs := te.SortOf(sig.Results().At(i).Type())
+	sigStr := strings.Join(ss, " ") + " -> " + rs
+	if prev, ok := te.pureSigs[name]; ok && prev != sigStr {
+		name = name + "_" + mangle(strings.Join(ss, "_"))
+	}
+	te.pureSigs[name] = sigStr
 	te.pre.Add("fn:"+name, fmt.Sprintf("(declare-fun %s (%s) %s)", smtName(name), strings.Join(ss, " "), rs))
 	return Term{app(smtName(name), as...), rs}
 }
